@@ -64,8 +64,15 @@ HARNESSES.append(_h('c16_foreign_module', 'a class of the module derives from a 
                     dict(NT=3, LIBSETS='aBc-;Abc-', CODE_FROM=0, CODE_TO=25, SKIP3=1, ncases=32)))
 
 PROPERTY_INFO = {'C16': {'level': 'model_checking',
-         'explanation': 'bounded symbolic execution (CBMC) of the real library-ordering code of interrogate_module over a symbolic model of the interrogate database query interface',
-         'outside': 'import/initialisation of the built module; databases with more types/libraries than the bounds; the main() tail (exit status, output file removal) is covered by the C19 harness family',
-         'assumptions': ['the "Referencing Library" progress message is printed for exactly the elements of the ordered library vector, in order, inside the loop that emits the LibraryDef declarations (read off the source)']}}
+         'explanation': 'execution of the real library-ordering code of interrogate_module (write_python_table_native, find_dependency_cycle) by the '
+                        'CBMC engine over a model of the interrogate database query interface; the databases are enumerated by concrete loops '
+                        'inside each query (all 64 labelled dependency graphs on 3 libraries in the quick tier; symbolic dependency sets make the '
+                        'shape of std::map<string, set<string>> symbolic and do not finish), termination is decided by unwinding assertions',
+         'outside': 'import/initialisation of the built module; the text of the generated file beyond the order of the library vector (the '
+                    'RegisterTypes / BuildInstants / defs[] loops iterate the same vector); more than 3 libraries; command-line order of the '
+                    'database files (the query interface is modelled, not loaded); the main() tail (exit status, output file removal) is '
+                    'covered by the C19 harness family',
+         'assumptions': ['the "Referencing Library" progress message is printed for exactly the elements of the ordered library vector, in order, '
+                         'inside the loop that emits the LibraryDef declarations (read off the source); models/printf.c records it']}}
 
 NOT_APPLICABLE = {}
